@@ -14,7 +14,7 @@ literal ±1, arithmetic (+ -), hex mask bit drop, `..=`/`..` range end, removal 
 Test code, verification hooks (cfg alpha_g_verif), comments, doc comments and string literals are
 never mutated.
 """
-import json, os, random, re, subprocess, sys, time
+import json, os, random, re, subprocess, sys, time, zlib
 
 REPO = "/repo"
 WT = "/tmp/mut-wt"
@@ -197,7 +197,7 @@ def run_plan(plan_path, outdir):
             if len(sample) >= item.get("max", 10):
                 break
         for m in sample:
-            mid = f"{rel}:{m['line']}:{m['kind']}:{abs(hash(m['new'])) % 100000}"
+            mid = f"{rel}:{m['line']}:{m['kind']}:{zlib.crc32(m['new'].encode()) % 100000}"
             mid = re.sub(r"[^\w:.\-/]", "_", mid)
             if mid in done:
                 continue
